@@ -25,7 +25,7 @@ func init() {
 	runner.Register(&runner.Check{
 		ID:    "C10",
 		Level: "model_checking",
-		Rule: "configuration = side {request, response} x limit L in 1..5 (thorough 1..9) x in-memory limit M in {L, 1, L-1} (request side: M<L spills to a temp file) x action {Reject, ProcessPartial} x body processor {urlencoded, RAW via ctl} x optional per-transaction ctl:requestBodyLimit/responseBodyLimit in {2, 0, -1} (non-positive values must not take effect); " +
+		Rule: "large-chunk family: 1 or 3 chunks of one size in {4 KiB, 32 KiB, 64 KiB, 64 KiB+1, 1 MiB} (thorough: 10 sizes from 1 byte) supplied out of one buffer that the caller overwrites after every call, request and response side, slice and reader entry points, with and without a spill at the second chunk: the body read back equals the bytes supplied. Main search: configuration = side {request, response} x limit L in 1..5 (thorough 1..9) x in-memory limit M in {L, 1, L-1} (request side: M<L spills to a temp file) x action {Reject, ProcessPartial} x body processor {urlencoded, RAW via ctl} x optional per-transaction ctl:requestBodyLimit/responseBodyLimit in {2, 0, -1} (non-positive values must not take effect); " +
 			"breadth-first search over all sequences (depth <= 4 quick / 8 thorough) of 13 body-supplying calls {Write(0..3 bytes), ReadFrom(reader with Len, 1/2/3/5 bytes), ReadFrom(plain reader, 1/2/3/5 bytes), ReadFrom(reader failing after 2 bytes)}; byte i of the supplied stream is 'a'+i so loss, duplication and reordering are visible; " +
 			"on every transition the returned (interruption, n, err), the body reader content, REQUEST_BODY/RESPONSE_BODY after the body phase, INBOUND/OUTBOUND_DATA_ERROR and the body-phase counter are compared with an arithmetic model; a state is (stored bytes, bytes offered, interruption, body-phase count, limit flag); every history is then repeated on the pool-recycled transaction object, which must behave identically",
 		Assumptions: []string{
@@ -449,10 +449,16 @@ func run(c *runner.Ctx) {
 			c.Sample(map[string]any{"configuration": conf, "states": res.States, "transitions": res.Transitions, "depth": res.Depth, "example_history": histNames([]int{2, 9, 12})})
 		}
 	})
+	runLarge(c, &idx)
 	c.Extra("depth_bound", depth)
 }
 
 func replay(raw json.RawMessage) (bool, string) {
+	var l largeCase
+	if err := json.Unmarshal(raw, &l); err == nil && l.Large {
+		sig, text := executeLarge(l)
+		return sig != "", fmt.Sprintf("configuration:\n%s%+v\n%s %s\n", l.conf(), l, sig, text)
+	}
 	var k kase
 	if err := json.Unmarshal(raw, &k); err != nil {
 		return false, err.Error()
